@@ -888,6 +888,10 @@ pub fn has_context_conflict(w: &GWorld) -> bool {
         && sensitive(m)
       {
         strict.insert(m.url.clone());
+        if m.media == Media::Json {
+          // configuration imports carry no `type` attribute
+          without_attr.insert(m.url.clone());
+        }
       }
     }
   }
